@@ -82,7 +82,7 @@ theorem fetch_round (S : SE B DM) (L : Laws S) (store : List (Chunk B)) (hwf : W
     fetchFromDataMap S (storeGet store) code dm = .ok b := by
   obtain ⟨ord, hperm, hinfos, hdec⟩ := L.enc_sound b dm cs henc
   unfold fetchFromDataMap
-  simp only
+  simp only [downloadTasks, Gen.SelfEnc.fetchRequestsEveryInfo, ↓reduceIte]
   rw [hinfos, List.zipIdx_map, permute_map]
   -- every task yields its own chunk
   have hmap : ((ord.zipIdx).map (Prod.map S.hash id)).map (taskResult (storeGet store))
@@ -272,7 +272,7 @@ theorem fetch_round_agree (S : SE B DM) (L : Laws S) (get get' : Nat → Except 
     (code code' : List Nat) (dm : DM) (d d' : B)
     (h : fetchFromDataMap S get code dm = .ok d) (h' : fetchFromDataMap S get' code' dm = .ok d') : d = d' := by
   unfold fetchFromDataMap at h h'
-  simp only at h h'
+  simp only [downloadTasks, Gen.SelfEnc.fetchRequestsEveryInfo, ↓reduceIte] at h h'
   cases hc : collect ((permute code (S.infos dm).zipIdx).map (taskResult get)) with
   | error e => simp [hc] at h
   | ok l =>
